@@ -1,7 +1,7 @@
 (* C18 witnesses: `_refuted` statements (the code as it stands violates the full statement),
    by vm_compute on the executed instance, and non-vacuity examples for the theorems. *)
 From Coq Require Import ZArith QArith Qcanon List Bool Arith Lia.
-From PAFC18 Require Import Model Proofs Proofs2.
+From PAFC18 Require Import Model Proofs Proofs2 Machine.
 Import ListNotations.
 Local Close Scope Qc_scope.
 Local Close Scope Q_scope.
@@ -166,3 +166,26 @@ Example subset_single_owner_nonvacuous :
   /\ qclt (scale_in (2#3) [8] (own N2 0 w_sub) 8) (Q2Qc 1) = true
   /\ differs (nget 8 (sub_cavity (2#3) [8] 0 w_sub)) (n_scale (Q2Qc (1#3)) (N 1 2)) = false.
 Proof. repeat split; vm_compute; reflexivity. Qed.
+
+(* ---- Machine.v: non-vacuity ---- *)
+(* a sound policy exists and the machine really answers: append, read, append (a failure), read, append, read *)
+Definition e_fail : hentry N2 := {| h_success := false; h_updated := true; h_token := None; h_state := [] |}.
+Example accessor_machine_runs :
+  run_ops (hentry N2) (option nat) (latest_successful N2) nat (@length _) Nat.eqb (fresh_obj _ _ _)
+          [Read _; Append _ (e_ok 1); Read _; Read _; Append _ e_fail; Read _; Append _ (e_ok 2); Read _]
+  = [None; Some 0; Some 0; Some 0; Some 2].
+Proof. vm_compute. reflexivity. Qed.
+Example accessor_policy_sound_nonvacuous :
+  sound_policy (hentry N2) (option nat) (latest_successful N2) nat (@length _) Nat.eqb.
+Proof. apply length_key_sound. Qed.
+(* run(1) then run(2) = run(3) on a concrete two-factor graph, and the run does produce entries *)
+Definition w_st : nstate := in_state [[(0, ((1 # 1)%Q, (2 # 1)%Q))]; [(0, ((0 # 1)%Q, (1 # 1)%Q))]].
+Definition w_sc : list (list ofit) :=
+  [[@OFit N2 true 1%Z (in_mf [(0, ((1 # 1)%Q, (1 # 2)%Q))]); @OFit N2 true 2%Z (in_mf [(0, ((1 # 1)%Q, (1 # 4)%Q))]); @OFit N2 true 3%Z (in_mf [(0, ((2 # 1)%Q, (1 # 8)%Q))])];
+   [@OFit N2 true 4%Z (in_mf [(0, ((0 # 1)%Q, (1 # 2)%Q))]); @ORaise N2; @OFit N2 true 5%Z (in_mf [(0, ((3 # 1)%Q, (1 # 16)%Q))])]].
+Definition w_run (n : nat) st log := run N2 n_add n_opp n_scale n_valid n (DScalar (Q2Qc 1)) w_sc None [0; 1] st log.
+Example run_twice_nonvacuous :
+  length (snd (w_run 3 w_st [])) = 6
+  /\ length (snd (w_run 1 w_st [])) = 2
+  /\ map fst (snd (w_run 2 (fst (w_run 1 w_st [])) (snd (w_run 1 w_st [])))) = [0; 1; 0; 1; 0; 1].
+Proof. vm_compute. repeat split; reflexivity. Qed.
